@@ -99,6 +99,26 @@ _p("C13", "CrossHair/z3 symbolic execution of MermaidExporter with lazy stop/fil
    "one path = (shape, start, name rotation, maxlevel region, stop/filter answers, default|custom functions, indent); non-trivial = >= 2 declared nodes",
    "trees with <= 3 nodes, every start node, 11 name rotations, default and custom functions", "trees with <= 4 nodes, same", GR_OUT, COMMON_ASSUME + ["stop/filter are pure per node"])
 
+RES_OUT = ["characters whose upper/lower case mapping is not a one-to-one pair (sharp s, dotless i, ...): 'case-insensitively' is not precise enough there",
+           "names outside the 22-entry pool for the tree-level obligations", "trees / paths beyond the bound"]
+
+_p("C07", "CrossHair/z3 bounded exhaustive symbolic execution of Resolver.get against an independent path interpreter; round trips through Walker",
+   CH + ". Tree shape, name assignment (rotations of a 22-name pool with regex/wildcard/separator characters, other-case twins, a non-string name) and the path's components "
+   "are solver-picked; every start node, leading-separator form (relative, absolute, absolute without root name, absolute with other-case root), trailing separator, ignorecase and relax "
+   "combination is evaluated inside the path.",
+   "one path = (shape, name rotation, component sequence); inside it 16 x n x 4 get() calls are judged; non-trivial = every path",
+   "trees with <= 3 nodes, 6 name rotations, paths of <= 3 components over {each node's name, an other-case name, '..', '.', '', unknown}; round trip: trees <= 4 nodes, 4 separator classes, pathattr name/id, 22 rotations",
+   "trees with <= 4 nodes, all 22 rotations x 2 strides, paths of <= 3 components (<= 4 for trees with <= 3 nodes)", RES_OUT, COMMON_ASSUME)
+
+_p("C08", "z3 regular-expression inclusion queries on the patterns compiled by the real Resolver (names of any length) + CrossHair/z3 bounded execution of glob against a set-semantics interpreter",
+   "E-RE: for every pattern over a 19-character alphabet up to the length bound and both ignorecase values, the real Resolver compiles the pattern; its sre parse tree is translated to a z3 regex "
+   "and z3 decides both inclusions against the wildcard semantics of the statement for ALL names (unsat = equal). E-CH: " + CH + ". glob on picked trees/names/patterns vs an independent interpreter: "
+   "relaxed set, pre-order list, duplicates rule, strict-mode dead ends, agreement with get, and cache transparency (same call repeated after calls of a resolver with the other ignorecase flag and at cache fill level _MAXCACHE-1).",
+   "E-RE: one obligation = one (pattern, ignorecase) pair, two unsat queries; E-CH: one path = (shape, name rotation, component sequence, cache prelude), inside it 6 x n x 2 (x up to 5) glob calls; non-trivial = every path",
+   "E-RE: patterns of length <= 3 over 19 characters; E-CH: trees <= 3 nodes, 6 name rotations, <= 2 components over names/'..'/'.'/''/unknown/'*'/'a*'/'?'/'*b'/'**'/'???'",
+   "E-RE: patterns of length <= 4; E-CH: trees <= 4 nodes, all rotations, <= 3 components", RES_OUT + ["E-RE: case folding only for the alphabet's letters"], COMMON_ASSUME + ["sre parse tree -> z3 regex translation (validated against re on every run)"])
+PROPS["C08"]["engine"] = "E-RE + E-CH"
+
 MUT_OUT = ["more nodes than the bound", "hooks that themselves mutate the tree (re-entrancy)", "concurrent mutation",
            "iterables with side effects while being consumed by children="]
 
@@ -241,7 +261,29 @@ def obligations(prop, tier):
             out.append(dict(name="structure_mermaid", module="harness.graphs", body="mermaid_body", cfg={"N": N, "exporter": "mermaid"}, depth=5 if q else 6, bounds="N<=%d" % N, picked=pk, symbolic=sym))
             out.append(dict(name="escaping", module="harness.graphs", body="esc_body", cfg={"mermaid": True}, depth=2, bounds="symbolic str len<=2; alphabet strings len<=3", picked="alphabet strings", symbolic="name, other name (str, len<=2)", timeout=600))
             out.append(dict(name="to_file", module="harness.graphs", body="files_body", cfg={"N": 3, "mermaid": True}, depth=2, bounds="N<=3", picked="n, parent vector, name rotation", symbolic="-"))
+    elif prop == "C07":
+        if q:
+            out.append(dict(name="get_semantics", module="harness.resolve", body="get_body", cfg={"N": 3, "L": 3, "rotations": 6}, depth=4, bounds="N<=3 L<=3 6 rotations", picked="n, parent vector, name rotation, components", symbolic="-"))
+            out.append(dict(name="get_semantics_dot", module="harness.resolve", body="get_body", cfg={"N": 3, "L": 2, "rotations": 6, "sep": "."}, depth=4, bounds="N<=3 L<=2, separator '.'", picked="same", symbolic="-"))
+            out.append(dict(name="roundtrip", module="harness.resolve", body="roundtrip_body", cfg={"N": 4}, depth=4, bounds="N<=4, 4 separators, 2 path attributes, 22 rotations", picked="separator, pathattr, n, parent vector, name rotation", symbolic="-"))
+        else:
+            out.append(dict(name="get_semantics4", module="harness.resolve", body="get_body", cfg={"N": 4, "L": 3, "strides": 2}, depth=5, bounds="N<=4 L<=3 all rotations", picked="n, parent vector, name rotation, stride, components", symbolic="-"))
+            out.append(dict(name="get_semantics3", module="harness.resolve", body="get_body", cfg={"N": 3, "L": 4, "rotations": 8}, depth=5, bounds="N<=3 L<=4 8 rotations", picked="same", symbolic="-"))
+            for sp in (".", "|", "::"):
+                out.append(dict(name="get_semantics_sep%d" % SEPS_IDX[sp], module="harness.resolve", body="get_body", cfg={"N": 3, "L": 3, "sep": sp}, depth=4, bounds="N<=3 L<=3 separator %r" % sp, picked="same", symbolic="-"))
+            out.append(dict(name="roundtrip", module="harness.resolve", body="roundtrip_body", cfg={"N": 5, "strides": 2}, depth=5, bounds="N<=5", picked="separator, pathattr, n, parent vector, name rotation", symbolic="-"))
+    elif prop == "C08":
+        from smt import glob_regex  # noqa
+        out.append(dict(kind="re", name="component_match", module="smt.glob_regex", body="run_partition", cfg={"L": 3 if q else 4}, bounds="pattern length <= %d, 19-char alphabet, names unbounded" % (3 if q else 4),
+                        picked="pattern, ignorecase", symbolic="the name (z3 String, any length)"))
+        if q:
+            out.append(dict(name="glob_semantics", module="harness.resolve", body="glob_body", cfg={"N": 3, "L": 2, "rotations": 6}, depth=4, bounds="N<=3 L<=2 6 rotations", picked="n, parent vector, name rotation, components, cache prelude", symbolic="-"))
+        else:
+            out.append(dict(name="glob_semantics4", module="harness.resolve", body="glob_body", cfg={"N": 4, "L": 2}, depth=5, bounds="N<=4 L<=2 all rotations", picked="same", symbolic="-"))
+            out.append(dict(name="glob_semantics3", module="harness.resolve", body="glob_body", cfg={"N": 3, "L": 3, "rotations": 8}, depth=5, bounds="N<=3 L<=3 8 rotations", picked="same", symbolic="-"))
+            out.append(dict(name="glob_semantics_sep", module="harness.resolve", body="glob_body", cfg={"N": 3, "L": 2, "sep": "::"}, depth=4, bounds="N<=3 L<=2 separator '::'", picked="same", symbolic="-"))
     return out
 
 
+SEPS_IDX = {".": 1, "|": 2, "::": 3}
 NOT_APPLICABLE = {}
